@@ -24,6 +24,17 @@ type Case struct {
 	Expiry     uint32 // v5 session expiry (s); v3: 0 = clean session, else persistent
 	End        string // disc0 | disc4 | close | malformed | keepalive | takeover0 | takeover1 | server_close | terminate
 	Reattach   string // never | before | after | clean_before
+	// DISCONNECT 0x04 carrying its own Session Expiry Interval, which replaces the CONNECT value
+	HasDiscExpiry bool   `json:",omitempty"`
+	DiscExpiry    uint32 `json:",omitempty"`
+}
+
+// effective session expiry once the connection has ended
+func (c Case) effExpiry() uint32 {
+	if c.HasDiscExpiry {
+		return c.DiscExpiry
+	}
+	return c.Expiry
 }
 
 const margin = 400 * time.Millisecond
@@ -38,8 +49,8 @@ func (c Case) effDelay() uint32 {
 	if c.V != 5 {
 		return 0
 	}
-	if c.Expiry < c.Delay {
-		return c.Expiry
+	if c.effExpiry() < c.Delay {
+		return c.effExpiry()
 	}
 	return c.Delay
 }
@@ -113,7 +124,13 @@ func runCase(c Case, idx int) (fs []finding, incon string, obs map[string]int, r
 		w.Disconnect(0, nil)
 		suppressed = true
 	case "disc4":
-		w.Disconnect(0x04, nil)
+		if c.HasDiscExpiry {
+			de := c.DiscExpiry
+			w.Disconnect(0x04, &mqttx.Props{SessionExpiry: &de})
+			obs["disconnects_overriding_session_expiry"]++
+		} else {
+			w.Disconnect(0x04, nil)
+		}
 	case "close":
 		w.Close()
 	case "malformed":
@@ -217,6 +234,9 @@ func runCase(c Case, idx int) (fs []finding, incon string, obs map[string]int, r
 		}
 	}
 	kind := fmt.Sprintf("end=%s:reattach=%s:v=%d", c.End, c.Reattach, c.V)
+	if c.HasDiscExpiry {
+		kind += ":disconnect_expiry=" + map[bool]string{true: "raised", false: "lowered"}[c.DiscExpiry > c.Expiry]
+	}
 	switch {
 	case expect < 0 && len(hits) > 0:
 		add("will.published_but_suppressed:"+kind, fmt.Sprintf("will published %v after the connection ended although it must not be (delay %v)", hits[0].T-tEnd, D))
@@ -228,12 +248,12 @@ func runCase(c Case, idx int) (fs []finding, incon string, obs map[string]int, r
 		dt := hits[0].T - tEnd
 		switch {
 		case dt < expect-margin:
-			add(fmt.Sprintf("will.too_early:%s", kind), fmt.Sprintf("will published %v after the connection ended, due after %v (delay %ds, session expiry %ds)", dt, expect, c.Delay, c.Expiry))
+			add(fmt.Sprintf("will.too_early:%s", kind), fmt.Sprintf("will published %v after the connection ended, due after %v (delay %ds, session expiry %ds)", dt, expect, c.Delay, c.effExpiry()))
 		case dt > expect+margin && dt <= expect+5*time.Second:
 			// late but inside the progress bound: a defect only if the statement fixes the instant (session end)
 			if c.End == "terminate" || c.End == "takeover1" || c.Reattach == "clean_before" || c.Reattach == "terminate_before" {
 				add(fmt.Sprintf("will.late_after_session_end:%s", kind), fmt.Sprintf("the session ended %v after the connection closed but the will came only after %v", expect, dt))
-			} else if dt > expect+1200*time.Millisecond {
+			} else if dt > expect+700*time.Millisecond {
 				add(fmt.Sprintf("will.late:%s", kind), fmt.Sprintf("will published %v after the connection ended, due after %v", dt, expect))
 			}
 		}
@@ -281,18 +301,33 @@ func allCases(rng *rand.Rand, quick bool) []Case {
 			}
 			for _, d := range delays {
 				for _, e := range exps {
-					res := []string{"never"}
-					if v == 5 && d > 0 && e > 0 && (end == "close" || end == "disc4" || end == "malformed" || end == "server_close" || end == "keepalive") {
-						res = []string{"never", "before", "after", "clean_before", "terminate_before"}
+					type de struct {
+						has bool
+						v   uint32
 					}
-					for _, re := range res {
-						if re == "before" && (d < 2 || e < 2) {
-							continue // needs an effective delay of at least 2 s to re-attach safely inside it
+					des := []de{{}}
+					if end == "disc4" && e > 0 {
+						for _, x := range []uint32{0, 1, 5} {
+							if x != e {
+								des = append(des, de{true, x})
+							}
 						}
-						if (re == "clean_before" || re == "terminate_before") && (d < 2 || e < 2) {
-							continue
+					}
+					for _, dx := range des {
+						eff := e
+						if dx.has {
+							eff = dx.v
 						}
-						cs = append(cs, Case{V: v, WillQoS: byte(rng.Intn(3)), WillRetain: rng.Intn(2) == 0, Delay: d, Rich: v == 5 && rng.Intn(2) == 0, Expiry: e, End: end, Reattach: re})
+						res := []string{"never"}
+						if v == 5 && d > 0 && eff > 0 && (end == "close" || end == "disc4" || end == "malformed" || end == "server_close" || end == "keepalive") {
+							res = []string{"never", "before", "after", "clean_before", "terminate_before"}
+						}
+						for _, re := range res {
+							if (re == "before" || re == "clean_before" || re == "terminate_before") && (d < 2 || eff < 2) {
+								continue // needs an effective delay of at least 2 s to re-attach safely inside it
+							}
+							cs = append(cs, Case{V: v, WillQoS: byte(rng.Intn(3)), WillRetain: rng.Intn(2) == 0, Delay: d, Rich: v == 5 && rng.Intn(2) == 0, Expiry: e, End: end, Reattach: re, HasDiscExpiry: dx.has, DiscExpiry: dx.v})
+						}
 					}
 				}
 			}
@@ -304,7 +339,7 @@ func allCases(rng *rand.Rand, quick bool) []Case {
 		seen := map[string]bool{}
 		var keep, rest []Case
 		for _, c := range cs {
-			k := c.End + "|" + c.Reattach + fmt.Sprint(c.V == 5)
+			k := c.End + "|" + c.Reattach + fmt.Sprint(c.V == 5, c.HasDiscExpiry, c.DiscExpiry > c.Expiry, c.effDelay() != Case{V: c.V, Delay: c.Delay, Expiry: c.Expiry}.effDelay())
 			if !seen[k] {
 				seen[k] = true
 				keep = append(keep, c)
@@ -312,7 +347,7 @@ func allCases(rng *rand.Rand, quick bool) []Case {
 				rest = append(rest, c)
 			}
 		}
-		for len(keep) < 56 && len(rest) > 0 {
+		for len(keep) < 64 && len(rest) > 0 {
 			keep = append(keep, rest[0])
 			rest = rest[1:]
 		}
